@@ -39,7 +39,7 @@ func leanField(pos token.Pos, s string) string {
 			return ".f" + s
 		}
 	}
-	refuse(pos, "child field %s is not known to the model (ExprModel.Field)", s)
+	refuse(pos, "child field %s is not known to the model (ExprModel.NField)", s)
 	return ""
 }
 
@@ -214,7 +214,7 @@ func genAstShape() string {
 	var sb strings.Builder
 	sb.WriteString("import ExprModel.Walk.Generic\nnamespace ExprModel.Gen\nopen ExprModel\n\n")
 	sb.WriteString("/-- ast/node.go: every struct embedding `base`, with its fields of type Node (false) / []Node (true), in declaration order -/\n")
-	sb.WriteString("def nodeStructs : List (NK × List (Field × Bool)) := [\n")
+	sb.WriteString("def nodeStructs : List (NK × List (NField × Bool)) := [\n")
 	for i, k := range order {
 		var fs []string
 		for _, fl := range fields[k] {
@@ -226,7 +226,7 @@ func genAstShape() string {
 		}
 		fmt.Fprintf(&sb, "  (.%s, [%s])%s\n", k, strings.Join(fs, ", "), sep)
 	}
-	sb.WriteString("]\n\ndef nodeFields (k : NK) : List (Field × Bool) := (nodeStructs.lookup k).getD []\n\n")
+	sb.WriteString("]\n\ndef nodeFields (k : NK) : List (NField × Bool) := (nodeStructs.lookup k).getD []\n\n")
 
 	// ast.Patch
 	nf := parseFile("ast/node.go")
